@@ -260,6 +260,11 @@ def ite(c, a, b):
         b = b.args[2]
     if a is b:
         return a
+    # short-circuit && / ||:  ite(c1, ite(c2, x, y), y) = ite(c1 && c2, x, y);  ite(c1, x, ite(c2, x, y)) = ite(c1 || c2, x, y)
+    if a.op == 'ite' and a.args[2] is b:
+        return ite(b_and(c, a.args[0]), a.args[1], b)
+    if b.op == 'ite' and b.args[1] is a:
+        return ite(b_or(c, b.args[0]), a, b.args[2])
     # integer min / max written as a comparison-select (total order: exact for every input)
     if c.op[:3] in ('lt:', 'le:') and len(c.args) == 2:
         x, y = c.args
